@@ -224,6 +224,35 @@ ChandelierShort(h, l, c, P) == AddS(MMin(l, P), Scale(I(3), Atr(h, l, c, P)))
 AccK(h, l) == Scale(I(4), DivS(SubS(h, l), AddS(h, l)))
 AccUpper(h, l, P) == Sma(MulS(h, Map(LAMBDA k : Add(I(1), k), AccK(h, l))), P)
 AccLower(h, l, P) == Sma(MulS(l, Map(LAMBDA k : Sub(I(1), k), AccK(h, l))), P)
+\* Projection Oscillator: PL = Min(P, high + MLS slope(P, x, high));  PH = Max(P, low + MLS slope(P, x, low));
+\*   PO = 100 * (Closing - PL) / (PH - PL)          (x = 1, 2, 3, ...: the linear regression slope over the window)
+Po(h, l, c, P) == LET xs == [p \in DOMAIN h |-> I(p)]
+                      pl == MMin(AddS(h, MlsM(xs, h, P)), P)
+                      ph == MMax(AddS(l, MlsM(xs, l, P)), P)
+                  IN Scale(I(100), DivS(SubS(c, pl), SubS(ph, pl)))
+\* Super Trend (the band recursion as documented; atr = the moving average of TR in use, M = multiplier):
+\*   BasicUpper = (High + Low) / 2 + M * ATR;  BasicLower = (High + Low) / 2 - M * ATR
+\*   FinalUpper = If (BasicUpper < PreviousFinalUpper) Or (PreviousClose > PreviousFinalUpper) Then BasicUpper Else PreviousFinalUpper
+\*   FinalLower = If (BasicLower > PreviousFinalLower) Or (PreviousClose < PreviousFinalLower) Then BasicLower Else PreviousFinalLower
+\*   SuperTrend = If upTrend Then (If Close <= FinalUpper Then FinalUpper Else FinalLower)
+\*                Else (If Close >= FinalLower Then FinalLower Else FinalUpper);   UpTrend = (SuperTrend = FinalUpper)
+\*   (at the first position there is no previous band: the final bands are the basic ones, upTrend is false)
+SuperTrend(h, l, c, atr, M) ==
+  LET med == Median(h, l)
+      bu == AddS(med, Scale(M, atr))
+      bl == SubS(med, Scale(M, atr))
+  IN IF IsEmpty(bu) THEN Empty
+     ELSE LET lo == Lo(bu)
+              first == IF Le(bl[lo], c[lo]) THEN [fu |-> bu[lo], fl |-> bl[lo], st |-> bl[lo], up |-> FALSE]
+                       ELSE [fu |-> bu[lo], fl |-> bl[lo], st |-> bu[lo], up |-> TRUE]
+              Step(prev, p) ==
+                LET fu == IF Lt(bu[p], prev.fu) \/ Lt(prev.fu, c[p - 1]) THEN bu[p] ELSE prev.fu
+                    fl == IF Lt(prev.fl, bl[p]) \/ Lt(c[p - 1], prev.fl) THEN bl[p] ELSE prev.fl
+                IN IF prev.up
+                   THEN (IF Le(c[p], fu) THEN [fu |-> fu, fl |-> fl, st |-> fu, up |-> TRUE] ELSE [fu |-> fu, fl |-> fl, st |-> fl, up |-> FALSE])
+                   ELSE (IF Le(fl, c[p]) THEN [fu |-> fu, fl |-> fl, st |-> fl, up |-> FALSE] ELSE [fu |-> fu, fl |-> fl, st |-> fu, up |-> TRUE])
+              states == Rec(Step, lo, Hi(bu), first)
+          IN [p \in DOMAIN states |-> states[p].st]
 \* Ulcer Index^2 = Sma(P, (100 * (Closings - High Closings) / High Closings)^2);  High Closings = Max(P, Closings)
 UlcerSq(c, P) == LET hc == MMax(c, P) IN Sma(Map(Sq, Scale(I(100), DivS(SubS(c, hc), hc))), P)
 
